@@ -1105,6 +1105,27 @@ verdict_t check_gcase(const gcase_t& c, ctx_t& ctx)
                        const auto target  = c.ratio * static_cast<double>(n);
                        for (int round = 0; round < 3; ++round)
                        {
+                           // the SAME sampler object serves every boosting round with the losses / gradients of that round: in round r
+                           // the training sample at position j carries the values generated for position (j + r) mod n, so that the
+                           // zero-weight samples of one round have a positive weight in another one
+                           if (round > 0)
+                           {
+                               for (int64_t j = 0; j < n; ++j)
+                               {
+                                   const auto dst = c.samples[static_cast<size_t>(j)];
+                                   const auto src = static_cast<size_t>(c.samples[static_cast<size_t>((j + round) % n)]);
+                                   errors_losses(1, dst) = c.losses[src];
+                                   double gw             = 0.0;
+                                   for (int k = 0; k < c.tdim; ++k)
+                                   {
+                                       const auto g = c.gradients[src * static_cast<size_t>(c.tdim) + static_cast<size_t>(k)];
+                                       gradients(dst, k, 0, 0) = g;
+                                       gw                      = std::max(gw, std::fabs(g));
+                                   }
+                                   loss_weight[dst] = c.losses[src];
+                                   grad_weight[dst] = gw;
+                               }
+                           }
                            const auto selection = to_ints(sampler.sample(errors_losses, gradients));
                            if (c.mode == 0)
                            {
